@@ -50,10 +50,10 @@ func init() {
 		hw.Opts{Groups: groups("c01"), MinSteps: 4, MaxSteps: 60, SmallPrune: true, LargeEvery: 60,
 			WMint: 60, WDeliver: 20, WClean: 6, WSave: 3, WReload: 4})
 
-	hprop("C07", histRule+"0-3 subscribers register at tape-chosen times and are drained after every submission; each applies the stream to its own chain; the delivered sequence must equal exactly the headers of the new best chain above the fork point, lowest first; non-trivial = at least one reorganisation while a subscriber is registered",
-		25, 900, []string{"subscriber-registered", "stream-multi-header-announcement"}, nil, "exploration",
+	hprop("C07", histRule+"0-3 subscribers register at tape-chosen times and are drained after every submission; each applies the stream to its own chain; the delivered sequence must equal exactly the headers of the new best chain above the fork point, lowest first; non-trivial = at least one reorganisation while a subscriber is registered; one run in 500 is the backlog scenario instead (submitter goroutine in a synctest bubble, a subscriber that does not read, 10001-10008 headers: every header must reach it once, in order, however long it lets the submitter wait)",
+		25, 900, []string{"subscriber-registered", "stream-multi-header-announcement", "submitter-blocked-on-full-subscriber-channel", "backlog-delivered-completely"}, nil, "exploration",
 		hw.Opts{Groups: groups("c07"), MinSteps: 4, MaxSteps: 60, SmallPrune: true, LargeEvery: 60,
-			WMint: 60, WDeliver: 20, WClean: 4, WSave: 1, WReload: 2, WSubscribe: 8})
+			WMint: 60, WDeliver: 20, WClean: 4, WSave: 1, WReload: 2, WSubscribe: 8, Backlog: 500})
 
 	hprop("C08", histRule+"plus submissions chosen adversarially relative to the current state (orphan, duplicate of any known header, fork exactly at / one beyond MaxBranchDepth, extension of a deep side tip, fork of a side branch) for MaxBranchDepth in {0,1,2,3,4,6,8,144}; every verdict is compared with the reference verdict and after every non-accepting answer all observables (and, sampled, the bytes of a subsequent Save) must be identical; non-trivial = at least one reorganisation or adversarial refusal",
 		25, 900, []string{"adv-orphan", "adv-duplicate-on-side-branch", "adv-duplicate-best-interior", "adv-fork-exactly-at-max-depth", "adv-fork-one-beyond-max-depth", "adv-extend-deep-side-tip", "adv-fork-of-side-branch", "save-compared-after-refusal", "refusal:unknown-parent", "refusal:beyond-depth"}, nil, "exploration",
